@@ -243,7 +243,7 @@ def run_case(acc, seed, idx):
 
 def run_shard(spec, acc):
     runner.quiet()
-    n = 7 if spec['tier'] == 'quick' else 50
+    n = 7 if spec['tier'] == 'quick' else 160
     for i in range(n):
         idx = spec['shard'] + i * spec['nshards']
         try:
